@@ -1,6 +1,7 @@
 #![allow(dead_code)]
 mod conc;
 mod corpus;
+mod drops;
 mod explore;
 mod families;
 mod faults;
@@ -34,10 +35,74 @@ fn main() {
 		"C13" => seqchecks::check_c13(&tier),
 		"C14" => corpus::check("C14", &tier),
 		"C15" => corpus::check("C15", &tier),
+		"C16" => drops::check(&tier),
+		"C16-child" => drops::child(),
 		"C17" => seqchecks::check_c17(&tier),
+		"replay" => replay_cmd(args.get(2).map(|s| s.as_str()).unwrap_or("")),
 		_ => {
 			eprintln!("usage: hlverif <C01..C17|replay> <quick|thorough>");
 			std::process::exit(2);
+		}
+	}
+}
+
+fn replay_cmd(path: &str) -> ! {
+	let text = std::fs::read_to_string(path).unwrap_or_else(|e| {
+		eprintln!("cannot read {}: {}", path, e);
+		std::process::exit(2)
+	});
+	let v: serde_json::Value = serde_json::from_str(&text).expect("replay file is JSON");
+	println!("property {} :: {}\n  {}", v["property"], v["key"], v["detail"]);
+	let r = &v["replay"];
+	match r["kind"].as_str().unwrap_or("") {
+		"concurrent" => {
+			let prog: interp::Program = serde_json::from_value(r["program"].clone()).expect("program");
+			let cfg: explore::Cfg = serde_json::from_value(r["cfg"].clone()).expect("cfg");
+			let sched: Vec<(u8, u16)> = serde_json::from_value(r["schedule"].clone()).expect("schedule");
+			println!("program: {}", prog.describe());
+			println!("schedule: {}", sched.iter().map(|(t, a)| format!("T{}:{}", t, conc::describe_act(&prog, *t as usize, *a))).collect::<Vec<_>>().join(" "));
+			// replay twice: the two traces must be identical (determinism)
+			let a = explore::replay(&prog, &cfg, &sched);
+			let b = explore::replay(&prog, &cfg, &sched);
+			match (a, b) {
+				(Ok((la, va)), Ok((lb, _))) => {
+					for l in &la {
+						println!("  {}", l);
+					}
+					for x in &va {
+						println!("VIOLATION-REPRODUCED property={} {} :: {}", x.prop, x.key, x.detail);
+					}
+					if la != lb {
+						eprintln!("machinery: the two replays differ");
+						std::process::exit(2);
+					}
+					std::process::exit(if va.is_empty() && !la.iter().any(|l| l.starts_with("DEADLOCK")) { 0 } else { 1 });
+				}
+				(Err(e), _) | (_, Err(e)) => {
+					eprintln!("machinery: {}", e);
+					std::process::exit(2);
+				}
+			}
+		}
+		"seq-fault" => {
+			let c: faults::FaultCase = serde_json::from_value(r["case"].clone()).expect("case");
+			println!("case: {} {} leaf-states={:?} fault={:?}", c.spec.describe(), c.flavour.api(c.write), c.assign, c.fault);
+			let o = faults::run_fault_case(&c, true);
+			for l in &o.trace {
+				println!("  {}", l);
+			}
+			for x in &o.violations {
+				println!("VIOLATION-REPRODUCED property={} {} :: {}", x.prop, x.key, x.detail);
+			}
+			std::process::exit(if o.violations.is_empty() { 0 } else { 1 });
+		}
+		"compile" => {
+			println!("offending line: {}\ntwin line:      {}\nfiles: {}", r["offending_line"], r["twin_line"], r["files"]);
+			std::process::exit(0);
+		}
+		other => {
+			println!("replay kind `{}`: the case is fully described above ({}); re-run the property's check to reproduce it", other, r);
+			std::process::exit(0);
 		}
 	}
 }
